@@ -169,9 +169,17 @@ def finalize(ck, plan, vecs, next_id):
         t = tags_of(out)
         sid = next_id + len(scripts)
         rnd = ck.rng.random()
-        scripts.append({"id": sid, "plan": name, "ncalls": nc, "nconns": nk, "timeout_ms": 300 if not ck.thorough else ck.rng.choice([250, 400]),
-                        "steps": out, "bg_callers": 0 if rnd < 0.6 else ck.rng.choice([1, 2, 4]), "bg_calls": ck.rng.choice([1, 2, 3]),
-                        "followup": 1, "mode": "traced", "jitter": ck.rng.random() < 0.7, "cls": "+".join(sorted(t)) or "plain"})
+        # two thirds of the executions use a timeout well above the slack (otherwise "the answer was there in time" cannot be
+        # told from scheduling noise); the rest use short ones
+        long_to = 2 * SLACK_MS + 300
+        sc = {"id": sid, "plan": name, "ncalls": nc, "nconns": nk, "timeout_ms": long_to if sid % 3 else ck.rng.choice([250, 400]),
+              "steps": out, "bg_callers": 0 if rnd < 0.6 else ck.rng.choice([1, 2, 4]), "bg_calls": ck.rng.choice([1, 2, 3]),
+              "followup": 1, "mode": "traced", "jitter": ck.rng.random() < 0.7, "cls": "+".join(sorted(t)) or "plain"}
+        if "late" in t and sid % 2 == 0:
+            # hold the callers between their timeout and unregisterCallback: the held-back answer finds the entry still there
+            sc["hold_timeout_us"] = 60000
+            sc["cls"] += "+hold"
+        scripts.append(sc)
     return scripts
 
 
